@@ -178,7 +178,7 @@ def check_circshift(case):
     seg = np.ascontiguousarray(seg.astype(dtype))
     before = seg.copy()
     arg, D = _dft_size(case)
-    sh = float(shift) if case.get("shift_float") else shift
+    sh = float(shift) if (case.get("shift_float") and abs(shift) < 2 ** 53) else shift
     kwargs = {"start_idx": start, "copy": copy}
     if case["dft"] != "none":
         kwargs["dft_size"] = arg
@@ -193,7 +193,7 @@ def check_circshift(case):
         require(seg.tobytes() == before.tobytes(), "input segment modified although copy=True")
     x_in = ref.idft(ref.place(before, start, D))
     x_out = ref.idft(ref.place(out, start, D))
-    want = np.roll(x_in, shift)
+    want = np.roll(x_in, shift % D if D else 0)
     scale = max(float(np.max(np.abs(before))), 1e-30)
     err = np.abs(x_out - want)
     t = int(np.argmax(err))
@@ -215,7 +215,10 @@ def circshift_cases():
             "start": st.one_of(st.just(0), st.integers(0, 64), st.integers(0, 6)),
             "dft": st.sampled_from(["none", "none", "fit", "larger", "wrap", "wrap"]),
             "extra": st.integers(0, 200),
-            "shift": st.one_of(st.integers(-300, 300), st.integers(-8, 8), st.sampled_from([0, 1, -1, 64, 128, -64])),
+            # mostly small shifts; one in eight is astronomically larger than the DFT size (only the shift
+            # modulo the size matters, and integers stay exact)
+            "shift": st.one_of(*([st.integers(-300, 300), st.integers(-8, 8), st.sampled_from([0, 1, -1, 64, 128, -64])] * 2
+                                 + [st.integers(10 ** 9, 2 ** 62), st.integers(-(2 ** 62), -(10 ** 9))])),
             "dtype": st.sampled_from(sorted(CS_DTYPES)),
             "copy": st.booleans(),
             "seed": st.integers(0, 2 ** 32 - 1),
